@@ -216,7 +216,7 @@ func decompressCap(rawSize, srcLen int) int {
 
 // decompressPGLZ decompresses PostgreSQL's pglz format
 func decompressPGLZ(data []byte, rawSize int) ([]byte, error) {
-	if len(data) < 4 {
+	if len(data) < 1 {
 		return nil, fmt.Errorf("data too short")
 	}
 
